@@ -65,16 +65,13 @@ def maxAbs (xs : List Rat) : Rat := xs.foldl (fun a x => rmax a (rabs x)) 0
 def minOf (xs : List Rat) : Rat := xs.foldl (fun a x => if x < a then x else a) (xs.headD 0)
 def maxOf (xs : List Rat) : Rat := xs.foldl (fun a x => if a < x then x else a) (xs.headD 0)
 
-def insertSorted (a : Rat) : List Rat → List Rat
-  | [] => [a]
-  | b :: l => if b < a then b :: insertSorted a l else a :: b :: l
+/-- ascending order (Array.qsort; independent of the model's merge sort) -/
+def sort (xs : List Rat) : Array Rat := xs.toArray.qsort (· < ·)
 
-def sort (xs : List Rat) : List Rat := xs.foldr insertSorted []
-
-/-- Hyndman & Fan type 8 quantile: h = (N + 1/3)p + 1/3, Q = x_⌊h⌋ + (h − ⌊h⌋)(x_⌊h⌋+1 − x_⌊h⌋)
-with x_k the k-th smallest value (1-based), clamped to the extremes. -/
-def quantileR8 (xs : List Rat) (p : Rat) : Rat :=
-  let s := (sort xs).toArray
+/-- Hyndman & Fan type 8 quantile on the ascending array `s`: h = (N + 1/3)p + 1/3,
+Q = x_⌊h⌋ + (h − ⌊h⌋)(x_⌊h⌋+1 − x_⌊h⌋) with x_k the k-th smallest value (1-based), clamped to
+the extremes. -/
+def quantileR8 (s : Array Rat) (p : Rat) : Rat :=
   let N := s.size
   if p ≤ 0 then s[0]!
   else if p ≥ 1 then s[N - 1]!
@@ -84,6 +81,20 @@ def quantileR8 (xs : List Rat) (p : Rat) : Rat :=
     if k < 1 then s[0]!
     else if k ≥ N then s[N - 1]!
     else s[k - 1]! + (h - (k : Rat)) * (s[k]! - s[k - 1]!)
+
+/-- Accuracy that a float64 evaluation of the quantile can have: the position h is itself a
+rounded float64 (three roundings at magnitude ≤ N+1), and an error Δh moves the result by
+Δh · (gap between the neighbouring order statistics).  Returns `ulp(h) · gap`, gap being the
+largest distance between adjacent order statistics within two places of ⌊h⌋. -/
+def positionSlack (s : Array Rat) (p : Rat) : Rat :=
+  let N := s.size
+  if p ≤ 0 ∨ p ≥ 1 ∨ N < 2 then 0 else
+  let h : Rat := ((N : Rat) + 1 / 3) * p + 1 / 3
+  let k := h.floor.toNat
+  let lo := if k < 3 then 0 else k - 3
+  let hi := if k + 2 ≥ N then N - 1 else k + 2
+  let gap := (List.range (hi - lo)).foldl (fun g i => rmax g (s[lo + i + 1]! - s[lo + i]!)) 0
+  ulp ((N : Rat) + 1) * gap
 
 /-- square root by Newton iteration on rationals: a value r with |r − √q| ≤ 1e-18·max(1,√q);
 the iterate is re-rounded to 160 fractional bits to keep the numbers small. -/
